@@ -21,6 +21,7 @@ raises ``Undecided`` on anything else.
 from __future__ import annotations
 
 import ast
+import os
 from typing import Callable, Dict, List, Optional
 
 from .model import (
@@ -213,6 +214,18 @@ class Dct(Value):
 
     def __repr__(self):
         return f"Dct({self.pairs})"
+
+
+class DDct(Dct):
+    """collections.Counter / defaultdict: a dict whose missing keys read as a default.  kind 'counter' reads 0 without
+    inserting; 'int' / 'list' / 'dict' / 'set' insert the fresh default on a subscript read, as defaultdict does."""
+
+    def __init__(self, kind, pairs=(), label=None):
+        Dct.__init__(self, pairs, label)
+        self.kind = kind
+
+    def default(self):
+        return {"counter": lambda: Const(0), "int": lambda: Const(0), "list": lambda: Lst([]), "dict": lambda: Dct([]), "set": lambda: SetV([])}[self.kind]()
 
 
 class Obj(Value):
@@ -920,7 +933,8 @@ class Interp:
     def st_FunctionDef(self, st, frame):
         fi = None
         if frame.fi is not None:
-            fi = frame.fi.nested.get(st.name)
+            # the function this very statement defines (a name may be defined once per branch of an if)
+            fi = getattr(frame.fi, "nested_by_node", {}).get(id(st)) or frame.fi.nested.get(st.name)
         if fi is None:
             raise Undecided(f"nested def {st.name} not in model")
         frame.env[st.name] = Fn(fi, None, closure=frame)
@@ -1339,6 +1353,27 @@ class Interp:
                 self.emit("with-exit", st, cm=Term("call", callee, tuple(args), tuple(kwargs.items())))
             if not rec["done"]:
                 raise Undecided(f"the context manager {callee.fi.name} did not yield")
+            return True
+        if isinstance(callee, Foreign) and callee.dotted in ("contextlib.suppress", "suppress") and isinstance(ce, ast.Call) and not ce.keywords:
+            # contextlib.suppress(E1, ...): an exception of one of these kinds raised by the body ends the block quietly
+            names = [ast.unparse(a_).split(".")[-1] for a_ in ce.args]
+            self.emit("with-enter", st, cm=Term("call", callee, tuple(Const(n_) for n_ in names), ()), is_async=False)
+            try:
+                if rest:
+                    self._with_modelled(st, rest, frame)
+                else:
+                    self.exec_block(st.body, frame)
+            except _Raise as r:
+                kind = exc_kind(r.value)
+                if any(n_ in ("Exception", "BaseException") for n_ in names):
+                    return True
+                if kind is not None and any(n_ == kind or n_ in EXC_PARENTS.get(kind, ()) for n_ in names):
+                    return True
+                if kind is None and names and self.choose(2, "suppress") == 0:
+                    return True
+                raise
+            finally:
+                self.emit("with-exit", st, cm=Term("call", callee, tuple(Const(n_) for n_ in names), ()))
             return True
         # class-based: decided only when every item of this with statement is an object of a repository class
         try:
@@ -1840,6 +1875,11 @@ class Interp:
             d.set(Const(k), to_value(cv) if cv is not UNKNOWN else Term("classattr", ci.name, k))
         for k, f in list(ci.methods.items()) + list(ci.getters.items()):
             d.set(Const(k), Fn(f))
+        # attributes stored on the class object while the program ran (cls.x = ...) are in its namespace too
+        pre = "cls:" + ci.qualname
+        for (owner, k), v in list(self.heap.items()):
+            if owner == pre and isinstance(k, str):
+                d.set(Const(k), v)
         doc = ast.get_docstring(ci.node)
         d.set(Const("__dict__"), Obj(None, label="<attribute '__dict__'>"))
         d.set(Const("__weakref__"), Obj(None, label="<attribute '__weakref__'>"))
@@ -1886,6 +1926,11 @@ class Interp:
             v = base.get(key)
             if v is not None:
                 return v
+            if isinstance(base, DDct) and all(same_value(k, key) is False for k, _ in base.pairs):
+                d = base.default()
+                if base.kind != "counter":
+                    base.set(key, d)
+                return d
             if isinstance(key, (Const, Obj)):
                 self.emit("raise", e, value=Term("exc", "KeyError"))
                 raise _Raise(Term("exc", "KeyError"), e)
@@ -2670,6 +2715,18 @@ class Interp:
                 x = Term("exc", type(ex_).__name__, str(ex_)[:60])
                 self.emit("raise", node, value=x, implicit=True)
                 raise _Raise(x, node)
+        if isinstance(callee, Foreign) and callee.dotted.split(".")[-1] == "Counter" and callee.dotted.split(".")[0] in ("collections", "Counter") and not args and not kwargs:
+            return DDct("counter")
+        if isinstance(callee, Foreign) and callee.dotted.split(".")[-1] == "defaultdict" and callee.dotted.split(".")[0] in ("collections", "defaultdict") and len(args) <= 1 and not kwargs:
+            if not args or (isinstance(args[0], Const) and args[0].v is None):
+                return Dct([])
+            if isinstance(args[0], Builtin) and args[0].name in ("int", "list", "dict", "set"):
+                return DDct(args[0].name)
+        if isinstance(callee, Foreign) and callee.dotted.split(".")[-1] in ("OrderedDict", "WeakValueDictionary", "WeakKeyDictionary") and not kwargs and (not args or (len(args) == 1 and isinstance(args[0], Dct))):
+            # insertion-ordered like every dict here; nothing is ever collected during one evaluation
+            return Dct([(k, v) for k, v in args[0].pairs]) if args else Dct([])
+        if isinstance(callee, Foreign) and callee.dotted.split(".")[-1] == "MappingProxyType" and len(args) == 1 and isinstance(args[0], Dct):
+            return args[0]  # a read-only view of the very same table
         if isinstance(callee, Foreign) and callee.dotted.split(".")[0] == "hashlib" and callee.dotted.split(".")[-1] in ("md5", "sha1", "sha256", "sha512", "blake2b") and len(args) == 1 and isinstance(args[0], Const) and isinstance(args[0].v, bytes) and not [k for k in kwargs if k != "usedforsecurity"]:
             # a digest of constant bytes (standard library on a constant)
             import hashlib as _hl
@@ -3058,6 +3115,16 @@ class Interp:
                 return Term("view", obj_dict(args[0]), "dict")
             if isinstance(args[0], Cls):
                 return Term("view", self.class_dict(args[0].ci), "dict")
+        if name == "id" and len(args) == 1 and not kwargs:
+            # identity of an abstract object / container / class: a number that is the same for the same object and
+            # different for different ones (the objects stay alive for the whole evaluation, so no number is reused)
+            a0 = args[0]
+            if isinstance(a0, (Obj, Lst, Dct, Tup, Cls, Fn)) or (isinstance(a0, Const) and (a0.v is None or isinstance(a0.v, bool))):
+                table = self.__dict__.setdefault("_ids", {})
+                key_ = ("const", a0.v) if isinstance(a0, Const) else (("cls", a0.ci.qualname) if isinstance(a0, Cls) else ("obj", id(a0)))
+                if key_ not in table:
+                    table[key_] = (len(table) + 1, a0)
+                return Const(140000000000000 + 64 * table[key_][0])
         if name == "object" and not args and not kwargs:
             n_ = self.__dict__.setdefault("_obj_counter", {})
             n_["object"] = n_.get("object", 0) + 1
@@ -3457,6 +3524,8 @@ class Interp:
                         base.set(Const(k), v)
                     return Const(None)
             if meth == "copy" and not args:
+                if isinstance(base, DDct):
+                    return DDct(base.kind, [(k, v) for k, v in base.pairs])
                 return Dct([(k, v) for k, v in base.pairs])
         if isinstance(base, SetV):
             has = lambda x: [same_value(x, y) for y in base.items]
@@ -3588,6 +3657,51 @@ class Interp:
                         parts.append(base.v)
                     parts.extend(x.args if isinstance(x, Term) else [x.v])
                 return Term("fstr", *parts)
+        if isinstance(base, Const) and isinstance(base.v, str) and meth == "format" and (args or kwargs) and not all(isinstance(a, Const) for a in list(args) + list(kwargs.values())):
+            # a constant template filled with values that are not all constants is the formatted string an f-string
+            # with the same fields would be (simple field names and positions only)
+            import string as _string
+            try:
+                fields = list(_string.Formatter().parse(base.v))
+            except ValueError:
+                fields = None
+            parts = []
+            auto = 0
+            ok_ = fields is not None
+            for lit, name_, spec_, conv_ in (fields or []):
+                if lit:
+                    parts.append(lit)
+                if name_ is None:
+                    continue
+                if conv_ is not None or (spec_ and "{" in spec_):
+                    ok_ = False
+                    break
+                if name_ == "":
+                    name_ = str(auto)
+                    auto += 1
+                if name_.isdigit():
+                    val_ = args[int(name_)] if int(name_) < len(args) else None
+                else:
+                    val_ = kwargs.get(name_) if name_.isidentifier() else None
+                if val_ is None:
+                    ok_ = False
+                    break
+                if isinstance(val_, Const) and not spec_ and isinstance(val_.v, (str, int)) and not isinstance(val_.v, bool):
+                    parts.append(str(val_.v))
+                elif isinstance(val_, Term) and val_.op == "fstr" and not spec_:
+                    parts.extend(val_.args)
+                else:
+                    parts.append((val_, spec_ or ""))
+            if ok_:
+                merged = []
+                for x in parts:
+                    if isinstance(x, str) and merged and isinstance(merged[-1], str):
+                        merged[-1] += x
+                    else:
+                        merged.append(x)
+                if all(isinstance(x, str) for x in merged):
+                    return Const("".join(merged))
+                return Term("fstr", *merged)
         if isinstance(base, Const) and isinstance(base.v, str) and meth in ("startswith", "endswith") and len(args) == 1 and isinstance(args[0], (Tup, Lst)) and all(isinstance(x, Const) and isinstance(x.v, str) for x in args[0].items):
             return Const(getattr(base.v, meth)(tuple(x.v for x in args[0].items)))
         if isinstance(base, Const) and isinstance(base.v, bytes) and all(isinstance(a, Const) for a in args) and not kwargs and meth in ("decode", "hex", "strip", "startswith", "endswith", "find", "count"):
@@ -3742,12 +3856,17 @@ def _declared_nonlocal(fnode, name) -> bool:
 # --------------------------------------------------------------------------- driver
 
 
+_STEPSTAT = [0]
+
+
 def explore(program: Program, run: Callable[[Interp], Optional[Value]], opts=None, max_paths=4096) -> List[Path]:
     """Enumerate all paths of ``run`` (a closure that sets up abstract inputs and calls
     ``interp.run_function``) by depth-first replay over the decision tree."""
     opts = dict(opts or {})
     paths: List[Path] = []
     prefix: List[int] = []
+    total_steps = 0
+    budget = opts.get("max_total_steps", 4_000_000)
     while True:
         it = Interp(program, prefix, dict(opts))
         p = Path()
@@ -3773,6 +3892,12 @@ def explore(program: Program, run: Callable[[Interp], Optional[Value]], opts=Non
         p.decisions = list(it.taken)
         p.interp = it
         paths.append(p)
+        total_steps += it.steps
+        if os.environ.get("INDILINT_STEPSTAT") and total_steps > _STEPSTAT[0]:
+            _STEPSTAT[0] = total_steps
+        if total_steps > budget:
+            # an exploration that does not converge is "not decided" - never a check that runs for an hour
+            raise Undecided(f"exploration budget exhausted ({total_steps} steps over {len(paths)} paths)")
         if len(paths) > max_paths:
             raise Undecided(f"more than {max_paths} paths")
         # next prefix
